@@ -1,6 +1,7 @@
 package sctp
 
 import (
+	"context"
 	"errors"
 	"fmt"
 	"io"
@@ -521,6 +522,15 @@ func propC18(j *Job) {
 			}
 		}
 	}
+	for mi, mode := range modes {
+		if mi == 1 && !j.Thorough() {
+			continue
+		}
+		j.Explore(fmt.Sprintf("WS/%s", mode.Name), writersVsShutdownScenario(withBase(mode.A, 228, 3, 4000), withBase(mode.B, 228, 4, 4000)), Budget{D: 2}, nil)
+		if j.capped() {
+			return
+		}
+	}
 	// (3) blocking-write mode
 	for _, mode := range modes {
 		for _, nw := range []int{1, 2, 3} {
@@ -710,5 +720,89 @@ func extendAtExpiryScenario(a, b epCfg, clear bool) *Scenario {
 			m.S.Join(rd)
 		},
 		Final: func(m *Sim, x *Exec) { generalVerdicts(m, x, true) },
+	}
+}
+
+// writersVsShutdownScenario: two goroutines write on the same ordered stream (non-blocking
+// mode) while a third calls Shutdown.  Whatever the interleaving, a write either fails without
+// any effect or its message is delivered: when Shutdown returns nil the peer has read exactly
+// the accepted messages.
+func writersVsShutdownScenario(a, b epCfg) *Scenario {
+	return &Scenario{
+		Name:    "writers-vs-shutdown",
+		Horizon: 120 * time.Second,
+		Body: func(m *Sim) {
+			if !m.Connect(a, b) {
+				m.Failf("connect", "handshake failed")
+				m.closeFailedTransports()
+				m.CloseBoth()
+				return
+			}
+			sa, _ := m.As[0].OpenStream(1, PayloadTypeWebRTCBinary)
+			sb, _ := m.As[1].OpenStream(1, PayloadTypeWebRTCBinary)
+			m.streamsSeen = append(m.streamsSeen, sa, sb)
+			mu := &m.mu
+			accepted := map[string]bool{}
+			var got []string
+			rd := m.Go("reader", func() {
+				buf := make([]byte, 500)
+				for {
+					n, _, err := sb.ReadSCTP(buf)
+					if err != nil {
+						return
+					}
+					mu.Lock()
+					got = append(got, string(buf[:n]))
+					mu.Unlock()
+				}
+			})
+			var ws []*vsched.Thread
+			for w := 0; w < 2; w++ {
+				w := w
+				ws = append(ws, m.Go(fmt.Sprintf("writer%d", w), func() {
+					for i := 0; i < 2; i++ {
+						d := payload(1, w*10+i, 30+w)
+						if n, err := sa.WriteSCTP(d, PayloadTypeWebRTCBinary); err == nil && n == len(d) {
+							mu.Lock()
+							accepted[string(d)] = true
+							mu.Unlock()
+						}
+						m.S.Yield()
+					}
+				}))
+			}
+			var serr error
+			sh := m.Go("shutdown", func() {
+				ctx, cancel := context.WithTimeout(context.Background(), 30*time.Second)
+				defer cancel()
+				serr = m.As[0].Shutdown(ctx)
+			})
+			m.Join(ws...)
+			m.WaitUntil("shutdown-done", 40*time.Second, func() bool { return sh.Done })
+			m.WaitUntil("reader-done", 5*time.Second, func() bool { return rd.Done })
+			if sh.Done && serr == nil {
+				mu.Lock()
+				seen := map[string]bool{}
+				for _, g := range got {
+					seen[g] = true
+				}
+				missing := 0
+				for d := range accepted {
+					if !seen[d] {
+						missing++
+					}
+				}
+				mu.Unlock()
+				if missing > 0 {
+					m.Failf("api.delivery", "Shutdown returned nil, %d writes had been accepted, but %d of them were never readable at the peer (a concurrent write that failed left a hole in the stream's sequence numbers)", len(accepted), missing)
+				}
+			}
+			m.Observe("accepted=%d got=%d serr=%v", len(accepted), len(got), serr != nil)
+			m.CloseBoth()
+			(&wconn{w: m.W, id: 0}).Close()
+			(&wconn{w: m.W, id: 1}).Close()
+			m.S.Join(rd)
+		},
+		Final: func(m *Sim, x *Exec) { generalVerdicts(m, x, false) },
 	}
 }
